@@ -12,11 +12,18 @@
    VLR describes exactly the current dimensions; Inv2 = base invariant + ((I3) or "the VLR describes all dimensions but
    the last, which is the reader's ExtraBytes"): what holds between reading a file with un-registered bytes and the
    next add / remove / conversion.
-   `ops_okb s ops` is the one hypothesis on inputs: the names an Add introduces are pairwise different, are not current
-   extra dimensions and are not standard dimension names of the format; no extra dimension is called like a standard
-   dimension of the target format of a Convert; the name "ExtraBytes" a truncated Reread introduces is new and at most
-   255 bytes stay un-registered (laspy fails inside numpy on a duplicate name
-   after the header was already changed — DESIGN section 6, observation 13 — so nothing is claimed there).
+   `ops_okb s ops` is the one hypothesis on inputs: THE FIELD NAMES OF THE RECORD ARE PAIRWISE DIFFERENT — the names an Add
+   introduces are pairwise different, are not current extra dimensions and are not fields of the format's record (rec_names:
+   X, intensity, bit_fields, raw_classification, gps_time ...); no extra dimension is called like a field of the record of the
+   target format of a Convert; the name "ExtraBytes" a truncated Reread introduces is new and at most 255 bytes stay
+   un-registered (laspy fails inside numpy on a duplicate field name after the header was already changed — DESIGN section 6,
+   observation 13 — so nothing is claimed there).
+   Round 6: until round 5 the hypothesis excluded every standard dimension name (std_names = rec_names ++ sub_names); it no
+   longer excludes the names of SUB FIELDS (return_number, synthetic, withheld, overlap, scanner_channel ...: dimensions of the
+   PointFormat that are no fields of the record), nor — as before — names of other formats, aliases and coordinates: every
+   theorem below is proved under the weaker hypothesis (C13_hypothesis_weakened).  The standard part of PointFormat.dimensions is
+   a function of the format id (std_dim_names, dim_names; C13_dimension_list), and an extra dimension that is called like a
+   standard one is removed alone (C13_remove_named_like_standard).
    Round 4 — several live objects.  `select s idx` is las[idx] (index list / array / integer with numpy's rule for negative
    entries; a slice or mask is the list of positions it selects): a LasData with a deep copy of the header and the selected
    records.  A `world` is the LasData the history works on plus every other LasData that is alive (the ones it was
@@ -74,7 +81,7 @@ Print Assumptions C13_init.
    is there from the start (also for the empty history), before or after the foreign VLRs *)
 Theorem C13_init_with_dimensions : forall fmt ex recs vl eb_last std, std_size fmt = Some std ->
   forallb edim_okb ex = true -> nodupb (extra_names ex) = true ->
-  forallb (fun n => negb (mem_name n (std_names fmt))) (extra_names ex) = true ->
+  forallb (fun n => negb (mem_name n (rec_names fmt))) (extra_names ex) = true ->
   (forall b, In b recs -> len b = std + extras_size ex) -> filter is_eb_vlr vl = [] ->
   exists s, init_ex fmt ex recs vl eb_last = Ok s /\ Inv s /\ st_fmt s = fmt /\ st_extras s = ex
             /\ map rec_bytes (st_recs s) = recs /\ filter not_eb (st_vlrs s) = vl.
@@ -119,10 +126,10 @@ Theorem C13_other_vlrs_untouched : forall s o, Inv2 s ->
 Proof. exact other_vlrs_step. Qed.
 Print Assumptions C13_other_vlrs_untouched.
 
-(* names stay pairwise different, never a standard name of the current format, parameters stay legal *)
+(* names stay pairwise different, never a field of the record of the current format, parameters stay legal *)
 Theorem C13_names : forall s ops, Inv2 s -> ops_okb s ops = true ->
   NoDup (extra_names (st_extras (run s ops)))
-  /\ (forall n, In n (extra_names (st_extras (run s ops))) -> ~ In n (std_names (st_fmt (run s ops))))
+  /\ (forall n, In n (extra_names (st_extras (run s ops))) -> ~ In n (rec_names (st_fmt (run s ops))))
   /\ forallb edim_okb (st_extras (run s ops)) = true.
 Proof. exact run_names. Qed.
 Print Assumptions C13_names.
@@ -235,10 +242,51 @@ Theorem C13_remove_bad : forall s names,
 Proof. exact remove_bad. Qed.
 Print Assumptions C13_remove_bad.
 
-Theorem C13_remove_standard : forall s names n, Inv2 s -> In n (std_names (st_fmt s)) -> In n names ->
+(* a standard dimension cannot be removed: a field of the record never (no extra dimension can be called so), a sub field
+   unless an extra dimension carries that very name (then see C13_remove_named_like_standard) *)
+Theorem C13_remove_record_field : forall s names n, Inv2 s -> In n (rec_names (st_fmt s)) -> In n names ->
   step s (Remove names) = (s, Err ELaspy).
+Proof. exact remove_record_field. Qed.
+Print Assumptions C13_remove_record_field.
+
+Theorem C13_remove_standard : forall s names n, Inv2 s -> In n (std_names (st_fmt s)) -> ~ In n (extra_names (st_extras s)) ->
+  In n names -> step s (Remove names) = (s, Err ELaspy).
 Proof. exact remove_standard. Qed.
 Print Assumptions C13_remove_standard.
+
+(* the guards of ExtraBytesStruct.scale / .offset (translated from the source) test exactly the bits of the specification, each
+   its own: bit 3 of `options` for the scale, bit 4 for the offset — for the 30 documented types and every options byte.  (That
+   both are set or none in what laspy writes is (I3); a reader that swapped the two bits would read laspy's own files alike.) *)
+Theorem C13_option_bits : forall id opt, 1 <= id <= 30 -> 0 <= opt < 256 ->
+  eb_has_scale id opt = Z.testbit opt 3 /\ eb_has_offset id opt = Z.testbit opt 4.
+Proof. exact option_bits. Qed.
+Print Assumptions C13_option_bits.
+
+(* round 6 — the hypothesis on names is weaker than "no standard dimension name at all" *)
+Theorem C13_hypothesis_weakened : forall fmt n, mem_name n (std_names fmt) = false -> mem_name n (rec_names fmt) = false.
+Proof. exact rec_names_weaker. Qed.
+Print Assumptions C13_hypothesis_weakened.
+
+(* PointFormat.dimensions after any step but a conversion: the standard dimensions of the format id, then the extra ones *)
+Theorem C13_dimension_list : forall s o, Inv2 s -> (forall g stds, o <> Convert g stds) ->
+  dim_names (fst (step s o)) = std_dim_names (st_fmt s) ++ extra_names (st_extras (fst (step s o))).
+Proof. exact step_dim_names. Qed.
+Print Assumptions C13_dimension_list.
+
+(* an extra dimension called like a standard dimension of the format (a sub field): removing it by that name is accepted,
+   exactly that extra dimension goes, the name is still a (standard) dimension, the standard bytes of every record and every
+   other extra dimension are what they were, and (I3) holds *)
+Theorem C13_remove_named_like_standard : forall s n, Inv2 s -> In n (std_dim_names (st_fmt s)) -> In n (extra_names (st_extras s)) ->
+  let s' := fst (step s (Remove [n])) in
+  snd (step s (Remove [n])) = Ok tt /\ Inv s'
+  /\ (exists a d b, st_extras s = a ++ d :: b /\ ed_name d = n /\ st_extras s' = a ++ b)
+  /\ ~ In n (extra_names (st_extras s'))
+  /\ dim_names s' = std_dim_names (st_fmt s) ++ extra_names (st_extras s') /\ In n (dim_names s')
+  /\ map fst (st_recs s') = map fst (st_recs s)
+  /\ (forall m, In m (extra_names (st_extras s)) -> m <> n ->
+        In m (extra_names (st_extras s')) /\ map (field_of m) (st_recs s') = map (field_of m) (st_recs s)).
+Proof. exact remove_named_like_standard. Qed.
+Print Assumptions C13_remove_named_like_standard.
 
 (* accepted operations do what they say (and leave (I3) holding) *)
 Theorem C13_remove_ok : forall s names, Inv2 s -> (forall n, In n names -> In n (extra_names (st_extras s))) -> NoDup names ->
@@ -449,6 +497,28 @@ Example C13_nonvacuous :
   /\ step s1 (Remove [[97]; [88]]) = (s1, Err ELaspy)
   /\ step s1 (Remove [[99]; [97]; [99]]) = (s1, Err ELaspy)
   /\ step s1 RoundTrip = (s1, Ok tt)
+  (* round 6: an extra dimension called "synthetic" (a sub field of raw_classification in format 0), next to "keep"; the
+     hypothesis accepts it, not "bit_fields" (a field of the record); it survives a round trip and a conversion to format 6
+     (where "synthetic" is a sub field of classification_flags), is removed alone, and then the name — now only the standard
+     sub field — cannot be removed *)
+  /\ (let syn := bytes_of_string "synthetic" in
+      let keep := bytes_of_string "keep" in
+      let S := mkED syn (TStd 3) (Some ([5], [6])) [] in
+      let K := mkED keep (TStd 1) None [] in
+      let h := [Add [K; S]; Assign syn [[1; 2]; [3; 4]]; Assign keep [[9]; [8]]; RoundTrip; Convert 6 [repeat 5 30%nat; repeat 6 30%nat]] in
+      let s6 := run s0 h in
+      ops_okb s0 (h ++ [Remove [syn]]) = true
+      /\ op_okb s0 (Add [mkED (bytes_of_string "bit_fields") (TStd 1) None []]) = false
+      /\ mem_name syn (std_dim_names 0) = true /\ mem_name syn (std_dim_names 6) = true /\ mem_name syn (rec_names 6) = false
+      /\ extra_names (st_extras s6) = [keep; syn]
+      /\ map (field_of syn) (st_recs s6) = [Some [1; 2]; Some [3; 4]]
+      /\ len (dim_names s6) = 18 + 2
+      /\ (let s7 := fst (step s6 (Remove [syn])) in
+          snd (step s6 (Remove [syn])) = Ok tt /\ extra_names (st_extras s7) = [keep]
+          /\ dim_names s7 = std_dim_names 6 ++ [keep] /\ map fst (st_recs s7) = [repeat 5 30%nat; repeat 6 30%nat]
+          /\ map (field_of keep) (st_recs s7) = [Some [9]; Some [8]]
+          /\ map (fun v => (v_rid v, len (v_data v))) (st_vlrs s7) = [(7, 3); (4, 192)]
+          /\ step s7 (Remove [syn]) = (s7, Err ELaspy)))
   /\ (let pts := [repeat 7 52%nat; repeat 8 52%nat; repeat 9 52%nat] in     (* another record, three points *)
       let s2 := run s1 [SetPoints [A; C] pts; Add [B]; Remove [[97]]] in
       ops_okb s1 [SetPoints [A; C] pts; Add [B]; Remove [[97]]] = true
